@@ -604,6 +604,9 @@ func idxSort(arr string) string {
 			}
 		}
 	}
+	if !strings.HasPrefix(arr, "(Array ") {
+		return "" // not an array sort: no index sort
+	}
 	panic("bad array sort " + arr)
 }
 
